@@ -112,6 +112,13 @@ def cases(tier, seed):
     for sh in ("cylinder", "spheroid"):
         out.append({"id": "volume-anchor:%s" % sh, "kind": "volume",
                     "shape": sh})
+    # orientation anchor: in the same limit the amplitude is the form factor
+    # of the shape, F(q . axis): it ties the Euler angles of the scatterer
+    # to the documented z-y-z rotation in HoloPy's frame (z towards the
+    # source), which the symmetry checks -- all relative -- cannot do
+    for i in range(len(ORI_ANCHOR)):
+        out.append({"id": "orientation-anchor#%d" % i, "kind": "orient",
+                    "i": i})
     # radii that are an odd number of quarter wavelengths (outside or
     # inside the sphere): cos(kr) = 0 to the last bit
     for i in range(len(SPECIAL_R)):
@@ -538,6 +545,47 @@ def _run_robust(case, ck):
     return digest(fp_values(h)), "ok"
 
 
+ORI_ANCHOR = [(0.0, 0.5, 0.0), (0.0, 0.5, 1.0), (0.3, 1.0, 4.0),
+              (1.1, 2.2, 2.0), (0.0, 2.6, 5.5), (2.0, 0.25, 3.0)]
+
+
+def _run_orient(case, ck):
+    import warnings
+    from holopy.core.metadata import detector_points
+    from holopy.core.math import rotation_matrix
+    from holopy.scattering import calc_scat_matrix, Spheroid, Tmatrix
+    rot = ORI_ANCHOR[case["i"]]
+    a, c = 0.15, 0.6
+    th = np.array([0.4, 0.4, 0.4, 0.4, 0.9, 0.9, 0.9, 0.9, 0.0])
+    ph = np.array([0.0, 1.5, 3.0, 4.6, 0.3, 1.9, 3.3, 5.0, 0.0])
+    det = detector_points(theta=th, phi=ph)
+    with warnings.catch_warnings():
+        warnings.simplefilter("ignore")
+        S = calc_scat_matrix(det, Spheroid(n=H.NMED + 0.0005, r=(a, c),
+                                           rotation=rot, center=(0, 0, 0)),
+                             H.NMED, H.WL, theory=Tmatrix()).values
+    ck.trans += 1
+    got = np.abs(S[:-1, 1, 1]) / np.abs(S[-1, 1, 1])
+    # the axis in HoloPy's frame; the light travels along -z, the detector
+    # angles are measured from the propagation direction
+    n = np.asarray(rotation_matrix(*rot)) @ np.array([0.0, 0.0, 1.0])
+    ks = np.stack([np.sin(th) * np.cos(ph), np.sin(th) * np.sin(ph),
+                   -np.cos(th)], 1)[:-1]
+    q = H.K * (ks - np.array([0.0, 0.0, -1.0]))
+    qpar = q @ n
+    u = np.sqrt(a * a * ((q ** 2).sum(1) - qpar ** 2) + c * c * qpar ** 2)
+    ref = np.abs(3 * (np.sin(u) - u * np.cos(u)) / u ** 3)
+    e = float(np.abs(got - ref).max())
+    ck.metric("orientation-anchor", e)
+    ck.true("orientation-anchor", e <= 0.02, "Spheroid(r=(%g, %g), rotation="
+            "%r) with an index 5e-4 above the medium's: |S1|/|S1(0)| in 8 "
+            "directions is %r, the form factor of the spheroid whose axis is "
+            "rotation_matrix(rotation) z gives %r (max difference %.3f)" %
+            (a, c, rot, np.round(got, 3).tolist(), np.round(ref, 3).tolist(),
+             e))
+    return digest(fp_values(S))
+
+
 def _run_volume(case, ck):
     import warnings
     from holopy.core.metadata import detector_points
@@ -586,5 +634,6 @@ def run_case(case):
           "sym": _run_sym, "history": _run_history,
           "spherespecial": _run_spherespecial,
           "baddims": _run_baddims,
-          "volume": _run_volume}[case["kind"]](case, ck)
+          "volume": _run_volume,
+          "orient": _run_orient}[case["kind"]](case, ck)
     return ck.result(fp=fp)
